@@ -193,6 +193,34 @@ def _split_tuple_assign(a):
     return [a]
 
 
+def norm_dec(d):
+    try:
+        return ast.unparse(d)
+    except Exception:
+        return "?"
+
+
+def _fold_const_ifs(stmts):
+    """`if True: A else: B` -> A   (constant tests appear when a literal flag argument is substituted into a helper)"""
+    out = []
+    for s in stmts:
+        for fld in ("body", "orelse", "finalbody"):
+            sub = getattr(s, fld, None)
+            if isinstance(sub, list) and sub and isinstance(sub[0], ast.stmt) and not isinstance(s, (ast.FunctionDef, ast.ClassDef)):
+                setattr(s, fld, _fold_const_ifs(sub))
+        if isinstance(s, ast.If):
+            t = s.test
+            neg = False
+            while isinstance(t, ast.UnaryOp) and isinstance(t.op, ast.Not):
+                t, neg = t.operand, not neg
+            if isinstance(t, ast.Constant) and isinstance(t.value, (bool, int, type(None))):
+                take = bool(t.value) != neg
+                out.extend(s.body if take else s.orelse)
+                continue
+        out.append(s)
+    return out
+
+
 def callee_short(call):
     f = call.func
     return f.id if isinstance(f, ast.Name) else (f.attr if isinstance(f, ast.Attribute) else "call")
@@ -226,6 +254,117 @@ class _Rename(ast.NodeTransformer):
         if n.id in self.mapping:
             return ast.copy_location(ast.Name(id=self.mapping[n.id], ctx=n.ctx), n)
         return n
+
+
+UNROLL_MAX = 4
+
+
+def _literal_iteration(it):
+    """[(element exprs bound to the target pattern)] for loops over a short literal tuple/list or enumerate() of one"""
+    if isinstance(it, (ast.Tuple, ast.List)) and 1 <= len(it.elts) <= UNROLL_MAX and all(_simple(e) for e in it.elts):
+        return [e for e in it.elts]
+    if isinstance(it, ast.Call) and isinstance(it.func, ast.Name) and it.func.id == "enumerate" and len(it.args) == 1 and not it.keywords:
+        inner = _literal_iteration(it.args[0])
+        if inner is not None:
+            return [ast.Tuple(elts=[ast.Constant(value=i), e], ctx=ast.Load()) for i, e in enumerate(inner)]
+    return None
+
+
+def _unroll_for(s, fnode=None):
+    """statements replacing `for <target> in <short literal>: body`, or None"""
+    if not isinstance(s, ast.For) or s.orelse:
+        return None
+    elems = _literal_iteration(s.iter)
+    if elems is None:
+        return None
+    for x in ast.walk(ast.Module(body=s.body, type_ignores=[])):
+        if isinstance(x, (ast.Break, ast.Continue, ast.Return, ast.Yield, ast.YieldFrom, ast.FunctionDef, ast.Lambda, ast.Global, ast.Nonlocal)):
+            return None
+    tnames = [s.target] if isinstance(s.target, ast.Name) else (list(s.target.elts) if isinstance(s.target, (ast.Tuple, ast.List)) else None)
+    if tnames is None or not all(isinstance(t, ast.Name) for t in tnames):
+        return None
+    tn = [t.id for t in tnames]
+    assigned = _assigned_names(ast.Module(body=s.body, type_ignores=[]))
+    if set(tn) & assigned:
+        return None
+    # locals of the body that are defined before use get a fresh name per iteration (all but the last iteration)
+    first_store, first_load = {}, {}
+    for x in ast.walk(ast.Module(body=s.body, type_ignores=[])):
+        if isinstance(x, ast.Name) and x.id in assigned:
+            pos = (getattr(x, "lineno", 0), getattr(x, "col_offset", 0))
+            d = first_load if isinstance(x.ctx, ast.Load) else first_store
+            if x.id not in d or pos < d[x.id]:
+                d[x.id] = pos
+    aug = {x.target.id for x in ast.walk(ast.Module(body=s.body, type_ignores=[])) if isinstance(x, ast.AugAssign) and isinstance(x.target, ast.Name)}
+    fresh = {n for n in assigned if n not in aug and (n not in first_load or first_store.get(n, (1 << 30, 0)) <= first_load[n])}
+    if fnode is not None:
+        fresh -= {g for x in ast.walk(fnode) if isinstance(x, (ast.Global, ast.Nonlocal)) for g in x.names}
+    # NOTE: `x = f(x)` has its load positioned after the store target; such names are treated as carried
+    for x in ast.walk(ast.Module(body=s.body, type_ignores=[])):
+        if isinstance(x, ast.Assign):
+            tg = {t.id for t in x.targets if isinstance(t, ast.Name)}
+            used = {y.id for y in ast.walk(x.value) if isinstance(y, ast.Name)}
+            fresh -= (tg & used)
+    out = []
+    for k, e in enumerate(elems):
+        mapping = {}
+        if len(tn) == 1 and isinstance(s.target, ast.Name):
+            mapping[tn[0]] = e
+        else:
+            parts = e.elts if isinstance(e, (ast.Tuple, ast.List)) else None
+            if parts is None or len(parts) != len(tn):
+                return None
+            mapping = dict(zip(tn, parts))
+        ren = {n: "%s__u%d" % (n, k + 1) for n in fresh} if k < len(elems) - 1 else {}
+        for b in s.body:
+            b2 = _Subst(mapping).visit(clone(b))
+            if ren:
+                b2 = _Rename(ren).visit(b2)
+            ast.fix_missing_locations(b2)
+            out.append(b2)
+    return out
+
+
+def _scalarize_lists(stmts, fnode):
+    """L = []; L.append(a); L.append(b); t1, t2 = L   ->   L__0 = a; L__1 = b; t1 = L__0; t2 = L__1
+    (all at one block level, L used nowhere else in the function)"""
+    changed = False
+    for i, s in enumerate(list(stmts)):
+        if not (isinstance(s, ast.Assign) and len(s.targets) == 1 and isinstance(s.targets[0], ast.Name)
+                and isinstance(s.value, ast.List) and not s.value.elts):
+            continue
+        L = s.targets[0].id
+        apps, unpack = [], None
+        ok = True
+        for j, t in enumerate(stmts):
+            if j == i:
+                continue
+            uses = [x for x in ast.walk(t) if isinstance(x, ast.Name) and x.id == L]
+            if not uses:
+                continue
+            if j > i and isinstance(t, ast.Expr) and isinstance(t.value, ast.Call) and isinstance(t.value.func, ast.Attribute) \
+                    and t.value.func.attr == "append" and isinstance(t.value.func.value, ast.Name) and t.value.func.value.id == L \
+                    and len(t.value.args) == 1 and len(uses) == 1 and unpack is None:
+                apps.append(j)
+            elif j > i and isinstance(t, ast.Assign) and len(t.targets) == 1 and isinstance(t.targets[0], (ast.Tuple, ast.List)) \
+                    and isinstance(t.value, ast.Name) and t.value.id == L and len(uses) == 1 and unpack is None:
+                unpack = j
+            else:
+                ok = False
+        total = sum(1 for x in ast.walk(fnode) if isinstance(x, ast.Name) and x.id == L)
+        if not ok or unpack is None or len(apps) != len(stmts[unpack].targets[0].elts) or total != 2 + len(apps):
+            continue
+        for k, j in enumerate(apps):
+            a = ast.Assign(targets=[ast.Name(id="%s__%d" % (L, k), ctx=ast.Store())], value=stmts[j].value.args[0])
+            stmts[j] = ast.fix_missing_locations(ast.copy_location(a, stmts[j]))
+        un = stmts[unpack]
+        news = [ast.fix_missing_locations(ast.copy_location(ast.Assign(targets=[t], value=ast.Name(id="%s__%d" % (L, k), ctx=ast.Load())), un))
+                for k, t in enumerate(un.targets[0].elts)]
+        stmts[unpack:unpack + 1] = news
+        del stmts[i]
+        changed = True
+        break
+    return changed
 
 
 class Flattener:
@@ -393,6 +532,69 @@ class Flattener:
         self.log.append("%s: inlined %s at line %s" % (fi.fq, fn.name, getattr(call, "lineno", "?")))
         return out
 
+    def expand_with_generator(self, fi, w, call, gi):
+        """`with helper(args): body` for an unknown @contextmanager generator with a single top-level `yield`:
+             pre; body; post                      (post is skipped on exceptions, exactly as in the generator)
+           or, when the yield is the body of a top-level try/finally:  pre; try: body finally: post"""
+        fn = gi.node
+        decs = [norm_dec(d) for d in fn.decorator_list]
+        if decs not in (["contextmanager"], ["contextlib.contextmanager"]):
+            return None
+        if fn.args.vararg or fn.args.kwarg or fn.args.kwonlyargs or _count(fn) > MAX_STMTS or len(fn.args.args) != len(call.args):
+            return None
+        params = [a.arg for a in fn.args.args]
+        mapping, pre = {}, []
+        for p_, a in zip(params, call.args):
+            if _simple(a):
+                mapping[p_] = a
+            else:
+                pre.append(ast.copy_location(ast.Assign(targets=[ast.Name(id=p_, ctx=ast.Store())], value=clone(a)), w))
+        body = [clone(s) for s in fn.body]
+        if body and isinstance(body[0], ast.Expr) and isinstance(body[0].value, ast.Constant) and isinstance(body[0].value.value, str):
+            body = body[1:]
+        body = [s for s in body if not isinstance(s, ast.Global)]
+        body = [_Subst(mapping).visit(s) for s in body]
+
+        def is_yield(s):
+            return isinstance(s, ast.Expr) and isinstance(s.value, ast.Yield)
+        n_yield = sum(1 for s in body for x in ast.walk(s) if isinstance(x, (ast.Yield, ast.YieldFrom)))
+        if n_yield != 1 or any(isinstance(x, ast.Return) for s in body for x in ast.walk(s)):
+            return None
+        var = w.items[0].optional_vars
+        idx = [i for i, s in enumerate(body) if is_yield(s)]
+        fin = None
+        if idx:
+            i = idx[0]
+            y = body[i].value.value
+            before, after = body[:i], body[i + 1:]
+        else:
+            tries = [i for i, s in enumerate(body) if isinstance(s, ast.Try) and not s.handlers and not s.orelse
+                     and len(s.body) == 1 and is_yield(s.body[0])]
+            if len(tries) != 1:
+                return None
+            i = tries[0]
+            y = body[i].body[0].value.value
+            before, after, fin = body[:i], body[i + 1:], list(body[i].finalbody)
+        yv = []
+        if var is not None:
+            yv = [ast.copy_location(ast.Assign(targets=[clone(var)], value=y if y is not None else ast.Constant(value=None)), w)]
+        # helper-owned statements are finished (reduced / renamed) on their own; the with-body is the caller's code
+        own = pre + before + yv + (fin or []) + after
+        keep = [var] if var is not None else None
+        res = self._finish(fi, fn, own, keep)
+        n1 = len(pre) + len(before) + len(yv)
+        n2 = n1 + len(fin or [])
+        if fin is None:
+            out = res[:n1] + list(w.body) + res[n2:]
+        else:
+            out = res[:n1] + [ast.copy_location(ast.Try(body=list(w.body), handlers=[], orelse=[], finalbody=res[n1:n2] or [ast.Pass()]), w)] + res[n2:]
+        for s in out:
+            ast.fix_missing_locations(s)
+        self.n_inlined += 1
+        self.inlined_names.add(fn.name)
+        self.log.append("%s: desugared `with %s(...)` (generator) at line %s" % (fi.fq, fn.name, getattr(w, "lineno", "?")))
+        return out
+
     # ---------------------------------------------------------------- `with Helper(args): body`
     def expand_with(self, fi, w):
         """Desugar `with C(args): body` for an *unknown* repo class C that is a plain context manager (fields set in
@@ -407,6 +609,8 @@ class Flattener:
         if not isinstance(call.func, ast.Name) or call.func.id in KNOWN or call.keywords or any(isinstance(a, ast.Starred) for a in call.args):
             return None
         b = fi.module.bindings.get(call.func.id)
+        if b and b[0] == "def":
+            return self.expand_with_generator(fi, w, call, b[1])
         if not b or b[0] != "class":
             return None
         ci = b[1]
@@ -509,7 +713,7 @@ class Flattener:
     def _finish(self, fi, fn, out, target):
         """beta/operator reduction, constant getattr/setattr canonicalisation, and renaming of helper locals that collide
         with names already used in the caller (a helper inlined twice must not share its locals)."""
-        out = [_AttrCanon().visit(_Beta(fi.module).visit(s)) for s in out]
+        out = _fold_const_ifs([_AttrCanon().visit(_Beta(fi.module).visit(s)) for s in out])
         names = self._names.setdefault(id(fi.node), None)
         if names is None:
             names = set(_assigned_names(fi.node)) | {a.arg for a in fi.node.args.args}
@@ -531,11 +735,102 @@ class Flattener:
         names |= {ren.get(n, n) for n in local}
         return out
 
+    # ---------------------------------------------------------------- helper calls nested inside an expression
+    def hoist_nested(self, fi, s):
+        """`return Sig([(1, helper(v))])` -> `t = helper(v)` (inlined) ; `return Sig([(1, t)])` when everything the
+        expression evaluates before the call is side-effect free (names, constants, attribute reads)."""
+        if isinstance(s, (ast.Expr, ast.Return)) and s.value is not None:
+            root = s.value
+        elif isinstance(s, (ast.Assign, ast.AugAssign)):
+            root = s.value
+        elif isinstance(s, ast.If):
+            root = s.test
+        else:
+            return None
+
+        def pure(e):
+            if isinstance(e, (ast.Name, ast.Constant)):
+                return True
+            if isinstance(e, ast.Attribute):
+                return pure(e.value)
+            if isinstance(e, (ast.Tuple, ast.List)):
+                return all(pure(x) for x in e.elts)
+            if isinstance(e, ast.UnaryOp):
+                return pure(e.operand)
+            return False
+
+        def ordered_children(e):
+            """sub-expressions in evaluation order, or None where hoisting out of `e` is not order preserving"""
+            if isinstance(e, ast.Call):
+                return [e.func] + list(e.args) + [k.value for k in e.keywords]
+            if isinstance(e, ast.BinOp):
+                return [e.left, e.right]
+            if isinstance(e, ast.UnaryOp):
+                return [e.operand]
+            if isinstance(e, (ast.Tuple, ast.List, ast.Set)):
+                return list(e.elts)
+            if isinstance(e, ast.Subscript):
+                return [e.value, e.slice]
+            if isinstance(e, ast.Attribute):
+                return [e.value]
+            if isinstance(e, ast.Starred):
+                return [e.value]
+            if isinstance(e, ast.Compare) and len(e.ops) == 1:
+                return [e.left, e.comparators[0]]
+            if isinstance(e, ast.BoolOp):
+                return [e.values[0]]          # only the first operand is evaluated unconditionally
+            if isinstance(e, ast.IfExp):
+                return [e.test]
+            return None
+
+        def find(e):
+            """(call, ok) first inlinable nested helper call in evaluation order"""
+            kids = ordered_children(e)
+            if kids is None:
+                return None
+            for i, k in enumerate(kids):
+                if isinstance(k, ast.Call) and self.helper_of(fi, k) is not None and k is not root:
+                    return k if all(pure(x) for x in kids[:i]) and all(pure(a) or True for a in []) else None
+                r = find(k)
+                if r is not None:
+                    return r if all(pure(x) for x in kids[:i]) else None
+                if not pure(k) and any(isinstance(x, ast.Call) for x in ast.walk(k)):
+                    # an impure sub-expression without an inlinable call precedes anything later: stop looking
+                    later = kids[i + 1:]
+                    if any(isinstance(x, ast.Call) and self.helper_of(fi, x) is not None for l in later for x in ast.walk(l)):
+                        return None
+            return None
+        call = find(root)
+        if call is None:
+            return None
+        # arguments of the call itself must not contain further inlinable calls evaluated earlier (handled in a later round)
+        tmp = "_%s_%d_%d" % (callee_short(call).strip("_"), getattr(call, "lineno", 0), getattr(call, "col_offset", 0))
+        pre = self.expand_call(fi, call, "assign", [ast.Name(id=tmp, ctx=ast.Store())])
+        if pre is None:
+            return None
+
+        class _Repl(ast.NodeTransformer):
+            def visit_Call(self_, n):
+                if n is call:
+                    return ast.copy_location(ast.Name(id=tmp, ctx=ast.Load()), n)
+                self_.generic_visit(n)
+                return n
+        if isinstance(s, ast.If):
+            s.test = _Repl().visit(s.test)
+        else:
+            s.value = _Repl().visit(s.value)
+        ast.fix_missing_locations(s)
+        return pre
+
     def flat_block(self, fi, stmts):
         out = []
         changed = False
         for s in stmts:
             rep = None
+            pre = self.hoist_nested(fi, s)
+            if pre is not None:
+                out.extend(pre)
+                changed = True
             if isinstance(s, ast.Expr) and isinstance(s.value, ast.Call):
                 rep = self.expand_call(fi, s.value, "expr")
             elif isinstance(s, ast.Assign) and isinstance(s.value, ast.Call):
@@ -558,6 +853,10 @@ class Flattener:
                         ast.fix_missing_locations(s)
                         out.extend(pre)
                         changed = True
+            if rep is None and isinstance(s, ast.For):
+                rep = _unroll_for(s, fi.node)
+                if rep is not None:
+                    self.log.append("%s: unrolled loop at line %s" % (fi.fq, getattr(s, "lineno", "?")))
             if rep is not None:
                 out.extend(rep)
                 changed = True
@@ -575,6 +874,8 @@ class Flattener:
                     h.body = nb
                     changed = True
             out.append(s)
+        while _scalarize_lists(out, fi.node):
+            changed = True
         return out, changed
 
     def flatten_function(self, fi):
@@ -655,7 +956,7 @@ def _drop_dead_helpers(repo, fl):
         fl.log.append("dropped after inlining: %s" % d)
 
 
-def resolve_locals(fnode, expr, max_depth=4):
+def resolve_locals(fnode, expr, max_depth=4, copies_only=False):
     """Copy of `expr` with single-assignment local names replaced by their defining expressions (def-use
     substitution), so that `t = f(x); g(t)` and `g(f(x))` normalise to the same text."""
     counts = {}
@@ -672,6 +973,9 @@ def resolve_locals(fnode, expr, max_depth=4):
                     if isinstance(x, ast.Name):
                         counts[x.id] = counts.get(x.id, 0) + 2
     single = {k: v for k, v in defs.items() if counts.get(k) == 1 and k not in params}
+    if copies_only:
+        # copy propagation only (t = u): always sound for single-assignment locals, whatever state changes in between
+        single = {k: v for k, v in single.items() if isinstance(v, ast.Name)}
     e = clone(expr)
     for _ in range(max_depth):
         names = {x.id for x in ast.walk(e) if isinstance(x, ast.Name) and isinstance(x.ctx, ast.Load)}
@@ -680,3 +984,14 @@ def resolve_locals(fnode, expr, max_depth=4):
             break
         e = _Subst(todo).visit(e)
     return e
+
+
+def resolutions(fnode, expr, max_depth=4):
+    """normalised texts of `expr` with 0, 1, ... levels of def-use substitution applied (for `x in resolutions(...)` tests)"""
+    from .loader import norm
+    out = []
+    for d in range(max_depth + 1):
+        t = norm(resolve_locals(fnode, expr, max_depth=d))
+        if t not in out:
+            out.append(t)
+    return out
